@@ -576,3 +576,18 @@ def _choice(eng, node, xs):
         raise PyRaise("IndexError", node)
     which = eng.choose_nd(len(items))
     return items[which]
+
+
+@reg("numpy.isclose", "math.isclose")
+def _isclose(eng, node, a, b, rtol=None, atol=None, rel_tol=None, abs_tol=None):
+    # numpy.isclose(a, b): |a - b| <= atol + rtol * |b|   (defaults rtol=1e-5, atol=1e-8), exact over the reals
+    from fractions import Fraction
+    numpy_form = rel_tol is None and abs_tol is None
+    rt = rtol if rtol is not None else (F(Fraction(1, 100000)) if numpy_form else (rel_tol if rel_tol is not None else F(Fraction(1, 10**9))))
+    at = atol if atol is not None else (F(Fraction(1, 10**8)) if numpy_form else (abs_tol if abs_tol is not None else F(0)))
+    if not numpy_form:
+        raise Unsupported("math.isclose")
+    x, y = ops.real(a), ops.real(b)
+    d = z3.If(x - y >= 0, x - y, y - x)
+    ay = z3.If(y >= 0, y, -y)
+    return d <= ops.real(at) + ops.real(rt) * ay
